@@ -230,6 +230,33 @@ func checkSupervisor(r *Report, rule string, gs goSite, done string) {
 		ctxOK = derives(gs.stmt.Call.Args[0], flowOpts{}, isCallTo("context.WithCancel"))
 	}
 	r.Check(ctxOK && cancel != nil, rule, key+"/c-cycle-context-cancellable", gs.stmt.Pos(), "the cycle runs under a context the supervisor can cancel", "the GC cycle is not started with a context derived from the supervisor's cancellable context: Close cannot interrupt a running cycle")
+	// a new cycle is scheduled only once the running one has finished
+	doneIdx := -1
+	for i, st := range sel.States {
+		if st.Dir == 2 && chanName(st.Chan) == done {
+			doneIdx = i
+		}
+	}
+	if doneIdx < 0 {
+		r.Bad(rule, key+"/c-one-cycle-at-a-time", instrPos(sel), "the supervisor's select does not receive from the cycle's done channel: it cannot know when a cycle finished")
+	} else {
+		doneEdges := selectCaseEdges(sup, sel, doneIdx)
+		resets := callSites(sup, "(*time.Timer).Reset")
+		if len(resets) == 0 {
+			r.Bad(rule, key+"/c-one-cycle-at-a-time", instrPos(sel), "the cycle timer is never re-armed (or a ticker is used): cycles either stop or can overlap")
+		}
+		for _, rs := range resets {
+			ok, path := guarded(sup, rs, mkEdgeSet(doneEdges), nil)
+			if ok {
+				r.Ok(rule, key+"/c-one-cycle-at-a-time", rs.Pos(), "the timer is re-armed only in the branch that received the running cycle's completion: cycles never overlap")
+			} else {
+				r.BadPath(rule, key+"/c-one-cycle-at-a-time", rs.Pos(), "the cycle timer is re-armed somewhere other than on completion of the running cycle: a cycle that outlasts the interval lets a second cycle start next to it — they race on the collector's state (visited map, reclaimed counter, the done variable, the freelist hand-over) and the stop branch waits for only one of them", path)
+			}
+		}
+		if len(callSites(sup, "time.NewTicker")) > 0 {
+			r.Bad(rule, key+"/c-one-cycle-at-a-time", instrPos(sel), "the supervisor uses a ticker: cycles start regardless of whether the previous one finished")
+		}
+	}
 	for _, ed := range selectCaseEdges(sup, sel, idx) {
 		ed := ed
 		// cancel is called on the stop branch
